@@ -86,7 +86,7 @@ theorem exec_good : ∀ (f : Nat), IH sc f := by
       cases l with
       | nil => simpa [exec] using good_leaf (NFle.refl _) hg hwf
       | cons op rest =>
-        simp only [exec]
+        simp only [exec, hbRemove_c, hbRemove_cg, hbRemove_initBad]
         -- the continuation: the script goes on unless its object has been destructed
         have hK : ∀ (w1 : World) (v : Option Nat), Inv w1.c → NFle w.c w1.c → WorldWf w1 → w1.initBad = false →
             Good w.c (if (w1.c.objs self).destructed = true then ({ w := w1 } : R) else exec sc f (.ops self arg rest) w1) := by
@@ -147,6 +147,32 @@ theorem exec_good : ∀ (f : Nat), IH sc f := by
             intro w1 v hI1 hle1 hwf1 hg1 hv
             simp only [leaf_andThen]
             exact hK _ none hI1 hle1 hwf1 hg1
+          · simp only [leaf_andThen]
+            exact hK _ none hI (NFle.refl _) hwf hg
+        | hbe a =>
+          simp only
+          split
+          · simp only [leaf_andThen]
+            refine hK _ none ?_ ?_ ?_ ?_
+            · show Inv (hbAdd w _).c; rw [hbAdd_c]; exact hI
+            · show NFle w.c (hbAdd w _).c; rw [hbAdd_c]; exact NFle.refl _
+            · intro g hgg
+              have hgg' : w.cg = some g := by simpa [emit] using hgg
+              show NF (hbAdd w _).c g; rw [hbAdd_c]; exact hwf g hgg'
+            · show (hbAdd w _).initBad = false; rw [hbAdd_initBad]; exact hg
+          · simp only [leaf_andThen]
+            exact hK _ none hI (NFle.refl _) hwf hg
+        | hbd a =>
+          simp only
+          split
+          · simp only [leaf_andThen]
+            refine hK _ none ?_ ?_ ?_ ?_
+            · show Inv (hbRemove w _).c; rw [hbRemove_c]; exact hI
+            · show NFle w.c (hbRemove w _).c; rw [hbRemove_c]; exact NFle.refl _
+            · intro g hgg
+              have hgg' : w.cg = some g := by simpa [emit] using hgg
+              show NF (hbRemove w _).c g; rw [hbRemove_c]; exact hwf g hgg'
+            · show (hbRemove w _).initBad = false; rw [hbRemove_initBad]; exact hg
           · simp only [leaf_andThen]
             exact hK _ none hI (NFle.refl _) hwf hg
         | pr e t =>
@@ -319,7 +345,7 @@ theorem exec_good : ∀ (f : Nat), IH sc f := by
           · exact good_val ((hle1.trans hA.1).trans hle2) hg2 hcg (by simp)
           · exact good_val ((hle1.trans hA.1).trans hle2) hg2 hcg (fun x hx => by cases hx; exact hle2 _ hA.2)
     | clone b =>
-      simp only [exec]
+      simp only [exec, hbRemove_c, hbRemove_cg, hbRemove_initBad]
       refine step_good sc ih hI trivial hwf hg (NFle.refl _) ?_
       intro w1 v hI1 hle1 hwf1 hg1 hv
       split
@@ -521,7 +547,7 @@ theorem exec_good : ∀ (f : Nat), IH sc f := by
       have := super_live hI hs
       exact live_nf hI this.1 this.2
     | dloop ob sup0 saveR =>
-      simp only [exec]
+      simp only [exec, hbRemove_c, hbRemove_cg, hbRemove_initBad]
       obtain ⟨hob, hdl, hsup⟩ := ht
       split
       · rename_i hempty
@@ -573,7 +599,7 @@ theorem probe_pres (Q : World → Prop) (hemit : ∀ w s, Q w → Q (emit w s))
     (hlk : ∀ (w : World) nm, Q w → Q { w with c := (lookupC w.c nm).1 })
     (hfl : ∀ (w : World) s, Q w → Q { w with c := (findLivingC w.c s).1 }) {w : World} (hw : Q w) : Q (probe w) := by
   unfold probe
-  apply hemit; apply hemit
+  apply hemit; apply hemit; apply hemit
   generalize (List.range w.c.n).drop 2 = ids
   suffices h : ∀ (ids : List Nat) (w : World), Q w → Q (ids.foldl (fun w i =>
       let o := w.c.objs i
@@ -617,7 +643,35 @@ theorem init_ok : WorldOk World.init :=
 /-- outcome of a top-level command -/
 def topOut (sc : Scripts) (w : World) : Cmd → Out
   | .top op => if ¬ (1 < w.c.n ∧ (w.c.objs 1).destructed = false) then .ok else (exec sc topFuel (.ops 1 none [op]) w).out
+  | .tick => if w.hbl.length = 0 then .ok
+             else (hbRound sc (w.hbl.length + 1000) { w with hbTodo := w.hbl.length, hbIdx := 0 }).out
   | _ => .ok
+
+theorem hbRound_good (sc : Scripts) : ∀ (fuel : Nat) (w : World), Inv w.c → WorldWf w → w.initBad = false →
+    Good w.c (hbRound sc fuel w) := by
+  intro fuel
+  induction fuel with
+  | zero => intro w hI hwf hg; exact good_leaf (NFle.refl _) hg hwf
+  | succ fuel ih =>
+    intro w hI hwf hg
+    simp only [hbRound]
+    split
+    · exact good_leaf (NFle.refl _) hg hwf
+    · rename_i ob _
+      refine good_ite (fun _ => good_leaf (NFle.refl _) hg hwf) (fun hv => ?_)
+      have hv' : ob < w.c.n ∧ (w.c.objs ob).freed = false ∧ (w.c.objs ob).destructed = false := by
+        apply Classical.byContradiction; intro hc; exact hv hc
+      refine step_good sc (exec_good sc topFuel) (by exact hI) ⟨⟨hv'.1, hv'.2.1⟩, by intro y h; cases h⟩ ?_ (by exact hg)
+        (NFle.refl _) ?_
+      · intro g hgg
+        have : (if (w.c.objs ob).ec = true then some ob else none) = some g := hgg
+        split at this
+        · cases this; exact ⟨hv'.1, hv'.2.1⟩
+        · cases this
+      · intro w1 v hI1 hle1 hwf1 hg1 hv1
+        have hwf1' : WorldWf { w1 with cg := none, hbIdx := w1.hbIdx + 1 } := fun g hgg => by cases hgg
+        refine good_ite (fun _ => good_leaf hle1 hg1 hwf1') (fun _ => ?_)
+        exact (ih _ (by exact hI1) hwf1' (by exact hg1)).mono hle1
 
 theorem stepCmd_ok (sc : Scripts) {w : World} (cmd : Cmd) (hw : WorldOk w) :
     WorldOk (stepCmd sc w cmd) ∧ topOut sc w cmd ≠ .crash := by
@@ -632,6 +686,18 @@ theorem stepCmd_ok (sc : Scripts) {w : World} (cmd : Cmd) (hw : WorldOk w) :
       have g := exec_good sc topFuel (.ops 1 none [op]) w hw.inv (live_nf hw.inv hm'.1 hm'.2) hw.wf hw.ghost
       have hI := exec_inv sc topFuel (.ops 1 none [op]) w hw.inv
       refine ⟨?_, g.nocrash⟩
+      split
+      · exact ⟨hI, g.wf, g.ghost⟩
+      · exact ⟨hI, fun gg hgg => g.le _ (hw.wf gg hgg), g.ghost⟩
+      · exact ⟨hI, g.wf, g.ghost⟩
+  | tick =>
+    have g0 := hbRound_good sc (w.hbl.length + 1000) { w with hbTodo := w.hbl.length, hbIdx := 0 } hw.inv hw.wf hw.ghost
+    refine ⟨?_, by simp only [topOut]; split; simp; exact g0.nocrash⟩
+    simp only [stepCmd, tick]
+    split
+    · exact ⟨hw.inv, hw.wf, hw.ghost⟩
+    · have g := hbRound_good sc (w.hbl.length + 1000) { w with hbTodo := w.hbl.length, hbIdx := 0 } hw.inv hw.wf hw.ghost
+      have hI := hbRound_inv sc (w.hbl.length + 1000) { w with hbTodo := w.hbl.length, hbIdx := 0 } hw.inv
       split
       · exact ⟨hI, g.wf, g.ghost⟩
       · exact ⟨hI, fun gg hgg => g.le _ (hw.wf gg hgg), g.ghost⟩
